@@ -769,6 +769,17 @@ func runFrame(fr *frame) {
 		i.steps += n
 		i.funcInstrs[fr.fn] += n
 		if i.steps > i.maxSteps {
+			if os.Getenv("SYMGO_DEBUG_BUDGET") != "" {
+				var tail []string
+				tr := i.run.trace
+				if len(tr) > 40 {
+					tr = tr[len(tr)-40:]
+				}
+				for _, d := range tr {
+					tail = append(tail, fmt.Sprintf("%c%d", d.Kind, d.V))
+				}
+				fmt.Fprintf(os.Stderr, "[budget] decisions=%d last=%v model=%v\n", len(i.run.trace), tail, i.model)
+			}
 			i.unsupported(fmt.Sprintf("step budget of %d SSA instructions exhausted", i.maxSteps))
 		}
 		for _, instr := range nonPhis {
